@@ -271,6 +271,8 @@ def run(eng, R):
     ok, _ = g.all_paths_pass(g.entry.id, stores_ref)
     R.ob("Cref", "reference.fset:store", ok, eng.where(f), "reference setter does not store the new reference on every path")
 
+    _source_formulas(eng, R)
+
 
 def _reaches_reset(eng, ctx, f, g, node, need, depth):
     loops = _is_reference_reset_loop(eng, f, g)
@@ -431,3 +433,89 @@ def _check_lazy_getter(eng, R, f):
                 ok = False
             R.ob("Clazy", f.qualname, ok, (f.file, n.lineno),
                  "%s tests `self.%s is None` but returns %s: the returned field is used without having been computed" % (f.qualname, k, sorted(used)))
+
+
+def _source_formulas(eng, R):
+    """R-H: the covariance of one source is (sigma sigma^T) o rho, with sigma = relative size x reference for relative sources; the total is the plain sum of
+    the sources' absolute covariances; err / cor_mat / inverse are read from the same total."""
+    from .formulas import check, extract, get_func
+
+    p = eng.p
+    R.rule("Hsrc", "per-source covariance = (sigma sigma^T) o rho (diagonal (1-rho) sigma^2 + rho outer(sigma, sigma)); sigma of a relative source = relative size x "
+                   "reference; matrix sources convert with outer(reference, reference)", 12)
+    R.rule("Htot", "the total is the sum of the absolute covariances of the sources (one accumulator per axis, zero-initialised), wrapped as an absolute covariance "
+                   "source at the current values; err = sqrt(diag), cor_mat, inverse are read from the same total", 14)
+    S, M, CM = "SimpleGaussianError", "MatrixGaussianError", "CovMat"
+    KS = ["self.reference", "self.error", "self.error_rel", "self._err", "self._err_rel", "()abs", "error_array", "corr_coeff", "()outer", "()diag", "()zeros_like"]
+    g = "_calculate_cov_mat_generic"
+    check(eng, R, "Hsrc", S, g, "assign", "diag(error_array ** 2 * (1 - corr_coeff))", target="cov_mat_uncor_part", when="=(corr_coeff > 0)", known=KS,
+          what="uncorrelated part = (1 - rho) sigma^2 on the diagonal")
+    check(eng, R, "Hsrc", S, g, "assign", "outer(error_array, error_array) * corr_coeff", target="cov_mat_cor_part", when="=(corr_coeff > 0)", known=KS,
+          what="correlated part = rho outer(sigma, sigma)")
+    check(eng, R, "Hsrc", S, g, "assign", "diag(error_array ** 2)", target="cov_mat_uncor_part", when="=not (corr_coeff > 0)", known=KS, what="uncorrelated source: sigma^2 on the diagonal")
+    check(eng, R, "Hsrc", S, g, "assign", "zeros_like(diag(error_array ** 2))", target="cov_mat_cor_part", when="=not (corr_coeff > 0)", known=KS, what="uncorrelated source: no correlated part")
+    check(eng, R, "Hsrc", S, g, "return", "CovMat(cov_mat_uncor_part + cov_mat_cor_part)", index=0, known=KS + ["cov_mat_uncor_part", "cov_mat_cor_part"], what="covariance = uncorrelated part + correlated part")
+    f = get_func(p, S, "_calculate_cov_mat")
+    if extract(f, "assign", "_abs_err", "=(self.relative)"):
+        check(eng, R, "Hsrc", S, "_calculate_cov_mat", "assign", "self.error_rel * self.reference", target="_abs_err", when="=(self.relative)", known=KS,
+              what="sigma of a relative source = relative size x current reference values (signed: the correlated part is rho outer(sigma, sigma))")
+        check(eng, R, "Hsrc", S, "_calculate_cov_mat", "assign", "self.error", target="_abs_err", when="=not (self.relative)", known=KS, what="sigma of an absolute source = its stored values")
+    else:
+        forms = sorted({x.canon() for _, x, _ in extract(f, "assign", "_abs_err")})
+        if forms == ["self.error"]:
+            R.ob("Hsrc", "%s._calculate_cov_mat:_abs_err:=(self.relative)" % S, False, (f.file, f.lineno),
+                 "the covariance of a relative source is built from `self.error` = relative size x |reference|: for reference values of mixed sign the off-diagonal "
+                 "elements rho sigma_i sigma_j lose their sign, the total is no longer the sum of (sigma sigma^T) o rho with sigma = relative size x values")
+        else:
+            raise AnalysisError("SimpleGaussianError._calculate_cov_mat: sigma of a relative source not recognised (%s)" % forms)
+    check(eng, R, "Hsrc", S, "_calculate_cov_mat_rel", "assign", "self.error_rel", target="_rel_err", known=KS, what="relative covariance is built from the relative sizes")
+    for fn, arg in (("_calculate_cov_mat", "_abs_err"), ("_calculate_cov_mat_rel", "_rel_err")):
+        f = get_func(p, S, fn)
+        calls = [c for c in ast.walk(f.node) if isinstance(c, ast.Call) and isinstance(c.func, ast.Attribute) and c.func.attr == "_calculate_cov_mat_generic"]
+        ok = len(calls) == 1 and [ast.unparse(a) for a in calls[0].args] == [arg, "self._corr_coeff"] and not calls[0].keywords
+        R.ob("Hsrc", "%s.%s:generic call" % (S, fn), ok, (f.file, f.lineno), "%s must build the matrix from (%s, self._corr_coeff)" % (fn, arg))
+    KM = ["self.error", "self.error_rel", "self.cov_mat", "self.cov_mat_rel", "self.reference", "self._cov_mat", "self._cov_mat_rel", "()diag", "()sqrt"]
+    check(eng, R, "Hsrc", M, "cov_mat", "assign", "self._calculate_cov_mat_from_cov_rel(self.cov_mat_rel, self.reference)", target="self._cov_mat", when="=(self.relative)", known=KM,
+          what="absolute covariance of a relative matrix source = relative covariance converted with the current reference")
+    check(eng, R, "Hsrc", M, "cov_mat_rel", "assign", "self._calculate_cov_mat_rel_from_cov(self.cov_mat, self.reference)", target="self._cov_mat_rel", when="=(not self.relative)", known=KM,
+          what="relative covariance of an absolute matrix source = covariance converted with the current reference")
+    check(eng, R, "Hsrc", M, "_calculate_cov_mat_from_cov_rel", "return", "CovMat(cov_mat_rel * outer(reference, reference))", known=["cov_mat_rel", "reference"], what="covariance = relative covariance x outer(reference, reference)")
+    check(eng, R, "Hsrc", M, "_calculate_cov_mat_rel_from_cov", "return", "CovMat(cov_mat / outer(reference, reference))", known=["cov_mat", "reference"], what="relative covariance = covariance / outer(reference, reference)")
+    check(eng, R, "Hsrc", M, "_calculate_cov_mat_from_cor_mat_and_error_array", "return", "CovMat(outer(error_array, error_array) * corr_mat)", known=["error_array", "corr_mat"], what="covariance = outer(sigma, sigma) o correlation")
+    # ---- total
+    check(eng, R, "Htot", M, "error", "assign", "sqrt(diag(self.cov_mat))", target="self._err", known=KM, what="pointwise uncertainty = sqrt(diag(covariance))")
+    check(eng, R, "Htot", M, "error_rel", "assign", "sqrt(diag(self.cov_mat_rel))", target="self._err_rel", known=KM, what="relative pointwise uncertainty = sqrt(diag(relative covariance))")
+    check(eng, R, "Htot", M, "cov_mat", "return", "self._cov_mat.mat", known=KM, what="the covariance getter returns the stored absolute matrix")
+    check(eng, R, "Htot", M, "cor_mat", "return", "self._cov_mat.cor_mat", known=KM, what="correlation matrix of the same stored covariance")
+    check(eng, R, "Htot", M, "cov_mat_inverse", "return", "self._cov_mat.I", known=KM, what="inverse of the same stored covariance")
+    check(eng, R, "Htot", CM, "cor_mat", "assign", "self._mat / outer(sqrt(diag(self._mat)), sqrt(diag(self._mat)))", target="self._cor_mat", known=["self._mat"], what="correlation = covariance / outer(sigma, sigma)")
+    check(eng, R, "Htot", CM, "I", "assign", "np.linalg.inv(self._mat)", target="self._inverse", known=["self._mat", "linalg.pinv"], what="inverse of the stored matrix")
+    for cname, names in (("IndexedContainer", {"err": (None, "error"), "cov_mat": (None, "cov_mat"), "cov_mat_inverse": (None, "cov_mat_inverse"), "cor_mat": (None, "cor_mat")}),
+                         ("XYContainer", {"x_err": (0, "error"), "y_err": (1, "error"), "x_cov_mat": (0, "cov_mat"), "y_cov_mat": (1, "cov_mat"), "x_cov_mat_inverse": (0, "cov_mat_inverse"),
+                                          "y_cov_mat_inverse": (1, "cov_mat_inverse"), "x_cor_mat": (0, "cor_mat"), "y_cor_mat": (1, "cor_mat")})):
+        for pn, (axis, attr) in sorted(names.items()):
+            spec = "self.get_total_error(%s).%s" % ("" if axis is None else "axis=%d" % axis, attr)
+            check(eng, R, "Htot", cname, pn, "return", spec, known=["self.get_total_error", "()self.get_total_error", ".error", ".cov_mat", ".cor_mat", ".cov_mat_inverse", ".cov_mat_rel", ".error_rel"], what="%s must be read from the total of %s" % (pn, "the container" if axis is None else "axis %d" % axis))
+    for cname, accs in (("IndexedContainer", {None: ("_tmp_cov_mat", "_data")}), ("XYContainer", {0: ("_tmp_cov_mat_x", "_x"), 1: ("_tmp_cov_mat_y", "_y")})):
+        f = get_func(p, cname, "_calculate_total_error")
+        src = " ".join(ast.unparse(f.node).split())
+        for axis, (acc, ref) in sorted(accs.items(), key=lambda kv: str(kv[0])):
+            inits = [n for n in ast.walk(f.node) if isinstance(n, ast.Assign) and any(isinstance(t, ast.Name) and t.id == acc for t in n.targets)]
+            ok = len(inits) == 1 and " ".join(ast.unparse(inits[0].value).split()) == "np.zeros((_sz, _sz))"
+            augs = [n for n in ast.walk(f.node) if isinstance(n, ast.AugAssign) and isinstance(n.target, ast.Name) and n.target.id == acc]
+            ok = ok and len(augs) == 1 and isinstance(augs[0].op, ast.Add) and " ".join(ast.unparse(augs[0].value).split()) == "_err_dict['err'].cov_mat"
+            if ok and axis is not None:
+                conds = common.guard_conditions(f.node, augs[0])
+                ok = any(pol and " ".join(ast.unparse(c).split()) == "_err_dict['axis'] == %d" % axis for c, pol in conds)
+            R.ob("Htot", "%s._calculate_total_error:accumulate%s" % (cname, "" if axis is None else ":axis %d" % axis), ok, (f.file, f.lineno),
+                 "the total must be `%s = zeros; %s += source.cov_mat` over the sources%s" % (acc, acc, "" if axis is None else " of axis %d" % axis))
+            wrap = "MatrixGaussianError(%s, 'cov', relative=False, reference=%s)" % (acc, ref)
+            R.ob("Htot", "%s._calculate_total_error:wrap%s" % (cname, "" if axis is None else ":axis %d" % axis), wrap in src, (f.file, f.lineno),
+                 "the accumulated matrix must be wrapped as absolute covariance with the current values as reference: %s" % wrap)
+        if cname == "XYContainer":
+            R.ob("Htot", "XYContainer._calculate_total_error:order", "self._total_error = [_total_err_x, _total_err_y]" in src and "_total_err_x = MatrixGaussianError(_tmp_cov_mat_x" in src
+                 and "_total_err_y = MatrixGaussianError(_tmp_cov_mat_y" in src and "_x, _y = (self.x, self.y)" in src, (f.file, f.lineno), "totals must be stored as [x, y] (get_total_error indexes by axis)")
+        f = get_func(p, cname, "get_total_error")
+        src = " ".join(ast.unparse(f.node).split())
+        want = "return self._total_error" if cname == "IndexedContainer" else "return self._total_error[_axis]"
+        R.ob("Htot", "%s.get_total_error" % cname, want in src and "if self._total_error is None: self._calculate_total_error()" in src, (f.file, f.lineno), "get_total_error must compute the total when the cache is empty and return it")
